@@ -1495,7 +1495,11 @@ def gen_crash(runner, tier, seed):
     cfgs = config_matrix(tier)
     for ci, cfg in enumerate(cfgs):
         s = runner.session(cfg, "crash matrix cfg %d: self=%s deny=%s logger=%s level=%d" % (ci, bool(cfg.self_ips), bool(cfg.deny), cfg.logger, cfg.level))
-        part = muts if tier != "quick" else muts[ci::len(cfgs)] + muts[(ci + 1) % len(cfgs)::len(cfgs)][:1000]
+        # thorough: every mutation under six configurations spread over the matrix, a tenth elsewhere
+        if tier != "quick":
+            part = muts if ci % 10 == 0 else muts[ci % 10::10]
+        else:
+            part = muts[ci::len(cfgs)] + muts[(ci + 1) % len(cfgs)::len(cfgs)][:1000]
         s.send(seeds)
         s.send(core)
         for ch in chunks(part, 5000):
@@ -1521,6 +1525,8 @@ def gen_crash(runner, tier, seed):
         s.send(firsts)
         s.send([f.data(x) for f, x in nexts])
         s.send([f.data(rb(r, r.randrange(0, 64))) for f, _ in nexts])
+        if tier != "quick":
+            runner.flush()
     if tier != "quick":
         # release profile (wrapping arithmetic, no overflow checks): the same frames must neither
         # abort nor hang (per-batch watchdog in the driver client)
